@@ -725,7 +725,35 @@ impl Hist {
         let threshold = if exact_in { 0 } else { u64::MAX };
         let v2 = w.r.gen();
         let ix = w.swap_ix(p, u, amount, threshold, limit, exact_in, a_to_b, v2);
+        let ix = Self::maybe_supplemental(w, p, a_to_b, ix, acc);
         self.step(w, ix, monitors, acc);
+    }
+
+    /// One v2 swap in four also carries one to three supplemental tick arrays: the arrays further along the
+    /// path (so that more than three initialised arrays may be supplied), neighbours behind the price, or
+    /// duplicates of the static ones, in random order.
+    pub fn maybe_supplemental(w: &mut World, p: usize, a_to_b: bool, ix: Ix, acc: &mut Acc) -> Ix {
+        if ix.name != "swap_v2" || ix.data.last() != Some(&0) || !rnd::chance(&mut w.r, 1, 4) {
+            return ix;
+        }
+        let st = w.pool_state(p);
+        let tia = 88 * st.tick_spacing as i64;
+        let base = (st.tick_current_index as i64).div_euclid(tia) * tia;
+        let dir: i64 = if a_to_b { -1 } else { 1 };
+        let n = w.r.gen_range(1..=3);
+        let mut extra = vec![];
+        for _ in 0..n {
+            let k: i64 = *rnd::pick(&mut w.r, &[3, 3, 4, 4, 5, 2, 1, 0, -1, -2]);
+            let s = base + dir * k * tia;
+            if s + tia > MIN_TICK_INDEX as i64 && s <= MAX_TICK_INDEX as i64 {
+                extra.push(w.tick_array_key(p, s as i32));
+            }
+        }
+        if extra.is_empty() {
+            return ix;
+        }
+        acc.count("swaps_with_supplemental_arrays");
+        crate::monitors::c10::with_supplemental(&ix, &extra)
     }
 
     /// One actor, only swaps, 2..12 in a row, both directions and modes.
@@ -737,6 +765,7 @@ impl Hist {
             let (amount, limit, exact_in, a_to_b) = self.gen_swap(w, p);
             let threshold = if exact_in { 0 } else { u64::MAX };
             let ix = w.swap_ix(p, u, amount, threshold, limit, exact_in, a_to_b, v2);
+            let ix = Self::maybe_supplemental(w, p, a_to_b, ix, acc);
             self.step(w, ix, monitors, acc);
         }
     }
@@ -994,6 +1023,13 @@ impl Hist {
                     }
                     let ix = w.collect_fees_ix(i, true);
                     self.step(w, ix, monitors, acc);
+                    // ... and the rewards it is owed (a position that is owed anything cannot be re-ranged)
+                    for k in 0..3u8 {
+                        if pos.reward_infos[k as usize].growth_inside_checkpoint != 0 || pos.reward_infos[k as usize].amount_owed != 0 {
+                            let ix = w.collect_reward_ix(i, k);
+                            self.step(w, ix, monitors, acc);
+                        }
+                    }
                 }
                 let ix = b::ResetPositionRange { funder: ADMIN, position_authority: w.users[pi.owner].key, whirlpool: pool.key, position: pi.position, position_token_account: pi.token_account, system_program: system_program::ID }.ix(lo, hi);
                 let o = self.step(w, ix, monitors, acc);
@@ -1265,6 +1301,8 @@ impl Hist {
                     3 => rnd::log_u128(&mut w.r, 128),
                     _ => rnd::log_u128(&mut w.r, 90),
                 };
+                // in a third of the pools the first reward never emits (an idle slot in front of emitting ones)
+                let e = if idx == 0 && w.pools[p].key.to_bytes()[0] % 3 == 0 { 0 } else { e };
                 if rnd::chance(&mut w.r, 1, 3) {
                     // re-fund the vault around the day-of-emissions requirement
                     if let Some(r) = st.reward_infos.get(idx as usize) {
